@@ -589,7 +589,7 @@ func init() {
 		Budget:    func(string) time.Duration { return 5 * time.Minute },
 		Units: func(string) []engine.Unit {
 			return []engine.Unit{{Name: "floats-complex", Run: floats}, {Name: "integers-runes-strings", Run: integersRunesStrings},
-				{Name: "shapes", Run: shapes}, {Name: "totality", Run: totality}, {Name: "purity", Run: purity}}
+				{Name: "shapes", Run: shapes}, {Name: "totality", Run: totality}, {Name: "purity", Run: purity}, {Name: "items-held-through-typed-interfaces", Run: typedElements}}
 		},
 	})
 }
